@@ -196,3 +196,26 @@ def lift_stored(beh, idx):
         tags.append("twoblocks")
     return {"name": "E2-stored-%d" % idx, "norm": "code", "universe": ["_id", "a"], "batches": [batch],
             "ops": ops, "tags": tags}
+
+
+def lift_merge(beh, idx):
+    """MergeAlgo configuration (catalogue selection + deletion sets) -> the same merge on the real code."""
+    cat = beh["catalogue"]
+    batches = [cat[i - 1] for i in beh["sel"]]
+    modes = [1, 2, 3, 0, 1024]
+    ops = []
+    for k in range(len(batches)):
+        ops.append({"op": "build", "seg": k + 1, "batch": k, "mode": modes[(idx + k) % len(modes)]})
+    drops = [{"kind": "set", "docs": d} if d or (idx + k) % 2 else {"kind": "nil"} for k, d in enumerate(beh["drops"])]
+    ops += [{"op": "merge", "file": 1, "in": list(range(1, len(batches) + 1)), "drops": drops,
+             "mode": modes[idx % len(modes)], "buf": [1, 16, 64, 4096][idx % 4]},
+            {"op": "layout", "file": 1},
+            {"op": "load", "file": 1, "seg": 9, "backing": "file" if idx % 3 == 0 else "mem"},
+            {"op": "observe", "seg": 9, "level": "full"},
+            {"op": "persist", "seg": 9, "file": 2},
+            {"op": "merge", "file": 3, "in": [9], "drops": [{"kind": "nil"}], "mode": modes[idx % len(modes)], "buf": 64},
+            {"op": "load", "file": 3, "seg": 10, "backing": "mem"},
+            {"op": "observe", "seg": 10, "level": "full"},
+            {"op": "same_obs", "in": [9, 10]}]
+    return {"name": "E2-merge-%d" % idx, "norm": "code", "universe": ["_id", "a", "b", "c", "nosuchfield"],
+            "batches": batches, "ops": ops, "tags": ["e2merge"]}
